@@ -427,6 +427,15 @@ func init() {
 		}
 		return Tuple{m.BytesToSlice(b), Iface{}}
 	})
+	reg("os.Stat", func(m *Machine, fn *ssa.Function, a []Value) Value {
+		name := concStrArg(m, a[0], "Stat path")
+		_, _, ent, en := m.K.resolve(m.K.root, name)
+		if en != 0 || ent == nil {
+			return Tuple{Iface{}, m.mkError(ConcStr("stat "+name+": no such file or directory", m.S), nil)}
+		}
+		t := types.NewNamed(types.NewTypeName(0, nil, "modelFileInfo", nil), types.Typ[types.String], nil)
+		return Tuple{Iface{T: t, V: Opaque{"fileinfo", ent.ino}}, Iface{}}
+	})
 	reg("os.WriteFile", func(m *Machine, fn *ssa.Function, a []Value) Value {
 		name := concStrArg(m, a[0], "WriteFile path")
 		data := m.SliceBytes(a[1].(Slice))
@@ -566,6 +575,25 @@ func init() {
 }
 
 func init() {
+	opaqueHandlers["fileinfo"] = func(m *Machine, o Opaque, name string, args []Value) Value {
+		ino := o.V.(*Inode)
+		switch name {
+		case "Size":
+			if ino.dir {
+				return m.S.Const(64, 4096)
+			}
+			return ino.vol.Size
+		case "IsDir":
+			return m.S.Bool(ino.dir)
+		case "Mode":
+			if ino.dir {
+				return m.S.Const(32, 1<<31|0o755)
+			}
+			return m.S.Const(32, 0o644)
+		}
+		m.unsupported("FileInfo." + name)
+		return nil
+	}
 	opaqueHandlers["direntry"] = func(m *Machine, o Opaque, name string, args []Value) Value {
 		switch name {
 		case "Name":
